@@ -352,6 +352,25 @@ async fn post_handshake(ctx: &mut Ctx, ty: &str, cut: &str, fault: &str, order: 
             return;
         }
     }
+    if ty == "SUB" {
+        // the socket's own writes to its other peers: a subscription change reaches every
+        // live publisher whatever happened to the dead one
+        let _ = sim::complete(e.sock.subscribe("after-the-fault")).await;
+        let mut want = vec![1u8];
+        want.extend_from_slice(b"after-the-fault");
+        for (k, l) in e.live.iter().enumerate() {
+            let told = l.out_msgs().map(|m| m.iter().any(|f| f.len() == 1 && f[0] == want)).unwrap_or(false);
+            if !told {
+                ctx.violation_with(
+                    &sig("live-peer-disturbed"),
+                    format!("after one publisher's connection ended ({fault}, {cut}, {order}) subscribe() did not reach live publisher {k}"),
+                    case.clone(),
+                );
+                return;
+            }
+        }
+        ctx.count("sub_updates_checked_after_a_fault");
+    }
     if e.dead.conn.tap_len() != dead_tap_at_fault && fault == "protocol-error" {
         ctx.violation_with(&sig("send-routed-to-dead-peer"), "bytes were written to the connection after its protocol error".into(), case.clone());
     }
@@ -600,6 +619,7 @@ impl Prop for C16 {
             ("released_after_observation", 0),
             ("handshake_failed_cleanly", 300),
             ("connections_replaced_by_a_reconnect", 50),
+            ("sub_updates_checked_after_a_fault", 50),
         ];
         for c in [
             "cut/between-messages",
